@@ -127,6 +127,12 @@ func VX_C13_roundtrip() {
 		}
 	}
 	vxCheckFrameVal(g, order, ocols, ix, "round trip")
+	if vx.HasParam("later") {
+		// the frame that was read back stays what it is when another document is read afterwards
+		other := ReadCSV(strings.NewReader("p,q\nzzzzzzzz,yyyyyyyy\nxxxxxxxx,wwwwwwww\n"), csv.Types(map[string]string{"p": "string", "q": "string"}))
+		vx.Check(other.Err == nil, "a later ReadCSV of another document")
+		vxCheckFrameVal(g, order, ocols, ix, "round trip result after a later ReadCSV")
+	}
 	vx.Reach("end")
 }
 
